@@ -117,14 +117,14 @@ def shallow(o):
     return c
 
 
-def make_state(V, cls='AccSignal', values=None, prefix=''):
+def make_state(V, cls='AccSignal', values=None, prefix='', cold=False, dtype='float'):
     """Arbitrary state satisfying the representation invariant: symbolic flags; cached fields = ite(flag, F(state), junk)."""
     itp = V.itp
     klass = itp.get_function('eqsig.single.' + cls)
     n = z3.Int(prefix + 'n')
     V.inputs[prefix + 'n'] = ('int', n)
     V.assume(n >= 2)
-    vals = values if values is not None else sym_array(V, prefix + 'vals', n)
+    vals = values if values is not None else sym_array(V, prefix + 'vals', n, dtype)
     dt = V.real(prefix + 'dt')
     V.assume(dt > 0)
     m = z3.Int(prefix + 'm_smooth')
@@ -143,6 +143,13 @@ def make_state(V, cls='AccSignal', values=None, prefix=''):
         o.attrs['_cached_xi'] = Q('0.05')
         for k in ('t_b01', 't_b05', 't_b10', 'a_rms01', 'a_rms05', 'a_rms10', 't_595', 'sd_start', 'sd_end', 'arias_intensity'):
             o.attrs[k] = Q(0)
+    if cold:
+        o.attrs.update(_cached_fa=False, _cached_smooth_fa=False, _fa_spectrum=None, _fa_freqs=None,
+                       _smooth_fa_spectrum=sym_array(V, prefix + 'junk_sm0', m))
+        if cls == 'AccSignal':
+            o.attrs.update(_cached_response_spectra=False, _cached_disp_and_velo=False, _cached_params={}, _s_a=None, _s_v=None, _s_d=None,
+                           _velocity=sym_array(V, prefix + 'junk_v0', n), _displacement=sym_array(V, prefix + 'junk_d0', n))
+        return o
     # F(state): run the real generators on a cold clone
     cold = cold_clone(V, o)
     b_fa, b_sm = V.bool(prefix + 'cached_fa'), V.bool(prefix + 'cached_smooth_fa')
@@ -219,3 +226,17 @@ def check_ownership(V, out, o, params=(), tag=''):
             out.prove('%svalues-buffer-not-shared-with-argument-%s' % (tag, nm), vals.buf is not p.buf)
         if isinstance(p, CArr):
             out.prove('%sargument-%s-not-written' % (tag, nm), p.buf.version == 0)
+
+
+def check_time_axis(V, out, o, tag=''):
+    """time = dt * [0 .. npts-1]"""
+    try:
+        t = observe(V, o, 'time')
+    except T.PyExc as e:
+        out.prove('%stime-no-exception[%s]' % (tag, e.kind), False)
+        return
+    n, dt = o.attrs['_npts'], o.attrs['_dt']
+    out.prove('%stime-has-npts-entries' % tag, is_arr(t) and len(t.shape) == 1 and T.seq(t.shape[0], n))
+    if is_arr(t):
+        k = T.fresh('kt', T.I)
+        out.prove('%stime-is-dt-times-index' % tag, T.simplies(T.sand(T.sle(0, k), T.slt(k, n)), T.seq(t.at(k), T.smul(k, dt))))
